@@ -504,10 +504,12 @@ theorem clsGet_append_self (cs : Classes) (k : Name) (c : Cls) (h : clsGet cs k 
     · simp [h0] at h
     · simp only [h0, ↓reduceIte] at h ⊢; exact ih h
 
-/-- the first definition in the sequence whose kind folds to `u` -/
+/-- the first definition in the sequence whose kind folds to `u` and whose attribute names do not collide (a
+    definition with colliding attribute names is rejected and defines nothing) -/
 def firstDef (u : Name) : List (Name × List (Name × Name)) → Option Cls
   | [] => none
-  | (k, as) :: r => if fold k = u then some { kind := k, attrs := as, refs := [] } else firstDef u r
+  | (k, as) :: r =>
+    if fold k = u ∧ dupFold (as.map (·.1)) = false then some { kind := k, attrs := as, refs := [] } else firstDef u r
 
 theorem defineAll_get (u : Name) : ∀ (defs : List (Name × List (Name × Name))) (cs : Classes),
     clsGet (defineAll cs defs) u = match clsGet cs u with
@@ -525,14 +527,32 @@ theorem defineAll_get (u : Name) : ∀ (defs : List (Name × List (Name × Name)
         have : ¬ fold k = u := by intro e; rw [e] at hk; rw [hk] at hu; cases hu
         simp [firstDef, this]
     | none =>
-      simp only [defineAll_get u r]
-      by_cases e : fold k = u
-      · subst e
-        rw [clsGet_append_self cs _ _ hk, hk]
-        simp [firstDef]
-      · rw [clsGet_append_ne cs _ _ _ e]
+      cases hd : dupFold (as.map (·.1)) with
+      | true =>
+        simp only [↓reduceIte, defineAll_get u r cs]
         cases hu : clsGet cs u with
         | some c => rfl
-        | none => simp [firstDef, e]
+        | none => simp [firstDef, hd]
+      | false =>
+        simp only [Bool.false_eq_true, ↓reduceIte, defineAll_get u r]
+        by_cases e : fold k = u
+        · subst e
+          rw [clsGet_append_self cs _ _ hk, hk]
+          simp [firstDef, hd]
+        · rw [clsGet_append_ne cs _ _ _ e]
+          cases hu : clsGet cs u with
+          | some c => rfl
+          | none => simp [firstDef, e]
+
+/-- a class that `define_class` accepts has attribute names that are distinct after case folding -/
+theorem nodup_of_not_dupFold : ∀ (l : List Name), dupFold l = false → (l.map fold).Nodup
+  | [], _ => by simp
+  | n :: r, h => by
+    simp only [dupFold, Bool.or_eq_false_iff] at h
+    simp only [List.map_cons, List.nodup_cons, List.mem_map, not_exists, not_and]
+    refine ⟨?_, nodup_of_not_dupFold r h.2⟩
+    intro m hm hf
+    have := List.any_eq_false.mp h.1 m hm
+    simp [hf] at this
 
 end Pyx.Attr
